@@ -6,8 +6,8 @@
 // It parses internal/flood/flood.go with go/parser and prints Lean source (MM/Gen/C06.lean):
 // the two constants that bound one ROUTE_ADVERTISE (maxRoutesPerAdvertise, advertiseHeadroom),
 // the shape of advertiseBudget (MaxPayloadSize - advertiseHeadroom - len(<empty>.Encode())), the
-// two tests of the splitRoutes loop, and whether AnnounceLocalRoutes and SendFullTable send
-// through splitRoutes. If a constant or function is missing, or a shape is not the expected
+// two tests of the splitRoutes loop, and whether AnnounceLocalRoutes, SendFullTable and
+// WithdrawLocalRoutes send through splitRoutes. If a constant or function is missing, or a shape is not the expected
 // one, it exits non-zero: the tie is broken and the check fails rather than guessing.
 package main
 
@@ -129,6 +129,24 @@ func main() {
 			die("%s does not send through splitRoutes(routes, advertiseBudget(&base))", name)
 		}
 	}
+	// WithdrawLocalRoutes: budget := MaxPayloadSize - advertiseHeadroom - len(base.Encode()); range splitRoutes(routes, budget)
+	wdBudget, wdRange := false, false
+	ast.Inspect(fn("WithdrawLocalRoutes"), func(n ast.Node) bool {
+		switch n := n.(type) {
+		case *ast.AssignStmt:
+			if src(n) == "budget := protocol.MaxPayloadSize - advertiseHeadroom - len(base.Encode())" {
+				wdBudget = true
+			}
+		case *ast.RangeStmt:
+			if src(n.X) == "splitRoutes(routes, budget)" {
+				wdRange = true
+			}
+		}
+		return true
+	})
+	if !wdBudget || !wdRange {
+		die("WithdrawLocalRoutes does not send through splitRoutes(routes, budget) with budget := protocol.MaxPayloadSize - advertiseHeadroom - len(base.Encode()) (is fixes/C06-withdraw-chunking.patch applied?)")
+	}
 	fmt.Printf("-- GENERATED from %s by /verif/tools/c06_extract.go (go/parser). Do not edit.\n", path)
 	fmt.Printf("namespace MM.Gen.C06\n")
 	fmt.Printf("def maxRoutesPerAdvertise : Nat := %d\n", maxRoutes)
@@ -136,5 +154,6 @@ func main() {
 	fmt.Printf("def budgetIsPayloadMinusHeadroomMinusFixed : Bool := true\n")
 	fmt.Printf("def splitClosesGroupOnCountOrSize : Bool := true\n")
 	fmt.Printf("def announceAndFullTableSplit : Bool := true\n")
+	fmt.Printf("def withdrawSplits : Bool := true\n")
 	fmt.Printf("end MM.Gen.C06\n")
 }
